@@ -21,14 +21,27 @@ class DbEngine(BaseEngine):
                   "iterated in memcmp key order with a 511-byte key limit; transactions as private table copies; "
                   "ADb.v is the abstract store the oracle uses; both are extracted and run on every history"]
 
+    # compare the bytes of event.map with the byte-level model after every operation (C04, C16)
+    with_map = False
+    # every awkward tag shape x every way of taking an event out, then every access path (deterministic)
+    ghost_sweep = False
+
     def generate(self, rng, tier):
         nh, nops = self.quick if tier == "quick" else self.thorough
+        HistGen.WITH_MAP = self.with_map
         out = []
         for i in range(nh):
             sub = random.Random(rng.getrandbits(64))
             n = sub.choice([max(3, nops // 4), nops // 2, nops, nops])
             g = HistGen(sub, self.weights, n).run()
             out.append((self.hist_class(g), g.render()))
+        if self.ghost_sweep:
+            for shape in HistGen.GHOST_SHAPES:
+                for how in HistGen.GHOST_HOWS:
+                    sub = random.Random(rng.getrandbits(64))
+                    g = HistGen(sub, {"new": 1, "addr": 1}, sub.choice([0, 2])).run()
+                    g.g_ghost(shape=shape, how=how, every_query=True)
+                    out.append(("ghost-sweep:%s" % how, g.render()))
         return out
 
     def hist_class(self, g):
@@ -70,7 +83,7 @@ class DbEngine(BaseEngine):
             i = 1
             while i < len(ops):
                 j = i + 1
-                while j < len(ops) and ops[j].startswith("obs"):
+                while j < len(ops) and (ops[j].startswith("obs") or ops[j] == "map"):
                     j += 1
                 cand = ops[:i] + ops[j:]
                 cl = " ; ".join([head] + cand)
